@@ -13,7 +13,7 @@ for p in props:
           "quick_cmd":f"./check {pid} quick",
           "thorough_cmd":f"./check {pid} thorough",
           "evidence_file":f"/verif/evidence/{pid}.json",
-          "replay_cmd_template":"./replay {path}",
+          "replay_cmd_template":"./replay.sh {path}",
           "engine":"gosym",
           "level_claimed":{"category":"model_checking","text":c['text'],"design_ref":c.get('design_ref','DESIGN.md §4')},
           "level_note":c['note'],
